@@ -37,11 +37,14 @@ CHECKS = {
         "everything it hands in or receives, and the specification has no transition for that.",
    note="block cache / transaction caches are not judged after their block's Commit",
    technique="TLA+ visibility invariants model-checked by TLC + TLC trace validation with caller-side mutation of all exchanged values"),
- "C08": dict(level="model_checking", ref="DESIGN.md §5 C08, Appendix D",
-   text="StateCacheConc.tla models Get and commit at the granularity of shared-map accesses; TLC proves hit=>Truth, no poisoned memo "
-        "and findability over all interleavings of 32 scopes (and refutes the previous step order); TLC emits every maximal schedule "
-        "of 1 committer + 1 reader and samples of 2 committers + 2..3 readers, which are replayed deterministically on real goroutines "
-        "through the verif yield hook and judged by TLC; free-running 8x32 stress under the race detector is judged by the same rule.",
+ "C08": dict(level="model_checking", ref="DESIGN.md §5 C08",
+   text="StateCacheConc.tla models Get and commit at the granularity of shared-map accesses; TLC proves hit=>Truth, no poisoned memo, "
+        "findability and 'a commit call that has returned has its write found' (in every state) over all interleavings of 44 scopes "
+        "incl. blocks committed twice concurrently, and refutes three design mutants (previous step order, commits not serialised, a "
+        "duplicate commit returning early); TLC emits every maximal schedule of 1 committer + 1 reader and of a twice-committed block + "
+        "1 reader, samples of 2 committers + 2..3 readers and adversarial schedules of the unserialised model, which are replayed "
+        "deterministically on real goroutines through the verif yield hook (each committer looks its block up right after Commit "
+        "returned) and judged by TLC; free-running 8x32 stress under the race detector is judged by the same rule.",
    note="data races are decided by the Go race detector, not by the specification",
    technique="TLA+ step-level concurrency model checked by TLC; TLC-generated schedules replayed on goroutines via yield hook; TLC judges results; race detector"),
  "C03": dict(level="model_checking", ref="DESIGN.md §5 C03",
@@ -86,12 +89,14 @@ CHECKS = {
    technique="TLA+ linearizability trace spec (search mode) checked by TLC over recorded concurrent histories + race detector"),
  "C09": dict(level="model_checking", ref="DESIGN.md §5 C09",
    text="WMPT.tla (content map with Total and Owner(b) by cumulative weight in key order) is model-checked by TLC "
-        "(OwnerPartition, OwnerWeights, ContentStable); TLC -simulate behaviours and seeded random histories (updates, deletes, "
-        "commits at collapse levels 0-3/64, gc, reload, root reads) run on the real trie over ten 32-byte keys sharing prefixes of "
-        "0..63 nibbles; TLC validates Weight() after every operation, the owner, value, weight and verifying proof of every block at "
-        "observation points, history independence of the root, and the bridge's independent root of the observed content.",
+        "(OwnerPartition, OwnerWeights, ContentStable); WMPTAlg.tla (insert/delete on terms) refines it (trie = WCanon(content), "
+        "design mutants refuted); TLC-generated behaviours (exhaustive to a depth, -simulate) and seeded random histories (updates, "
+        "re-weighing of unchanged values, deletes, commits at collapse levels 0-3/64, gc, reload / CopyRoot, root reads) run on the real "
+        "trie over six key universes of 32-byte keys with weights scaled per trace; TLC validates Weight() after every operation, the "
+        "owner, value, weight and verifying proof of every block (unit) at observation points, history independence of the root, the "
+        "bridge's independent root of the observed content and the stored shape against WCanon.",
    note="known finding C09-SharedContent (consequence of the storage-sharing defect of C11)",
-   technique="TLA+ spec (WMPT.tla) + TLC design check + TLC-generated behaviours replayed into the Go code + TLC trace validation (WMPTTrace.tla)"),
+   technique="TLA+ specs (WMPT.tla, WMPTAlg.tla, WCanon.tla) + TLC design checks and design mutants + TLC-generated behaviours replayed into the Go code + TLC trace validation (WMPTTrace.tla)"),
  "C11": dict(level="model_checking", ref="DESIGN.md §5 C11",
    text="Same traces, recorded per storage write element: after every element TLC requires the last durably committed root to be "
         "resolvable (loader-closure computed in TLA+ over graph rows parsed from the stored bytes), after every commit the new root, "
